@@ -3,7 +3,7 @@
    the theorems hold for every choice the allocator can make, including re-use of the identity
    of freed storage, and for every placement of [OCollect] (garbage collection) in a history. *)
 From Coq Require Import List Bool ZArith.
-From Serif Require Import Base.PyVal Model.Heap Proofs.HeapBase Proofs.HeapReg Proofs.HeapFrame.
+From Serif Require Import Base.PyVal Model.Heap Proofs.HeapBase Proofs.HeapReg Proofs.HeapFrame Proofs.HeapDerived.
 Import ListNotations.
 
 (* In every reachable state the registry's live view IS the sharing relation: every live
@@ -51,6 +51,24 @@ Theorem C15_empty_storage_never_refused : forall s h v us sid',
 Proof. exact empty_storage_never_refused. Qed.
 Print Assumptions C15_empty_storage_never_refused.
 
+(* What the library builds itself owns its storage ("fresh vectors, copies, slices, operation results
+   ... always writable").  [step_d] is [step] under the rule that only Vector(T) over a caller-supplied
+   tuple may take a storage identity some live object holds; the correspondence check runs every other
+   operation of every history through [step_d], so an implementation whose slice or concatenation
+   returns the operand's own tuple (CPython: t[:] is t, t + () is t) is [Stuck] where the code says Ok.
+   Under that rule a derived vector shares with nobody and is writable at once, whatever else is alive. *)
+Theorem C15_derived_vector_is_sole_owner : forall s h c rn i s',
+  step_d s (ONewVec h c rn i) = (s', Ok) -> i <> EMPTY ->
+  forall h' o', h' <> h -> aget (heap s') h' = Some o' -> sid_of o' <> i.
+Proof. exact derived_vector_sole_owner. Qed.
+Print Assumptions C15_derived_vector_is_sole_owner.
+
+Theorem C15_derived_vector_writable_at_once : forall s h c rn i s' us sid',
+  Inv_reg s -> step_d s (ONewVec h c rn i) = (s', Ok) ->
+  snd (step s' (OSetV h us sid')) <> ErrAlias.
+Proof. exact derived_vector_writable_at_once. Qed.
+Print Assumptions C15_derived_vector_writable_at_once.
+
 (* exact characterisation of the refusals *)
 Theorem C15_refusal_iff : forall s h v us sid',
   Inv_reg s -> getv s h = Some v ->
@@ -83,4 +101,13 @@ Example C15_example :
   (* partner written (moved to storage 6) -> writable, even if the new vector 3 re-uses identity 5's slot later *)
   snd (step (run s [OSetV 2 [(0, SInt 7)] 6; OCollect [2]; ONewVec 3 (CLit [SInt 0] None) None 6])
             (OSetV 3 [(0, SInt 1)] 7)) = Ok.
+Proof. vm_compute. repeat split. Qed.
+
+(* the fresh-storage rule at work: a slice that came back with its source's storage identity (5) is
+   not an admissible derivation step; with an identity of its own (6) it is, and is writable at once *)
+Example C15_example_derived :
+  let s := run init [ONewVec 1 (CLit [SInt 1; SInt 2] None) None 5] in
+  step_d s (ONewVec 2 (CFrom 1 (Some [0; 1])) None 5) = (s, Stuck) /\
+  snd (step_d s (ONewVec 2 (CFrom 1 (Some [0; 1])) None 6)) = Ok /\
+  snd (step (fst (step_d s (ONewVec 2 (CFrom 1 (Some [0; 1])) None 6))) (OSetV 2 [(0, SInt 9)] 7)) = Ok.
 Proof. vm_compute. repeat split. Qed.
